@@ -72,6 +72,7 @@ Eval vm_compute in ("PREC", failing (fun c => match c with (e, _, ps, _) => list
 Eval vm_compute in ("LEX", failing (fun c => match c with (e, s, _, _) => otoks_eqb (lex s) (toks e) end) cases).
 Eval vm_compute in ("PARSE", failing (fun c => match c with (e, s, _, sh) => opast_eqb (parse_string s) sh end) cases).
 Eval vm_compute in ("PARSED", List.length (filter (fun c => match c with (_, _, _, Some _) => true | _ => false end) cases)).
+Eval vm_compute in ("FRAG", List.length (filter (fun c => match c with (e, _, _, _) => fragment e end) cases)).
 """ % ";\n".join(items)
 
 
@@ -121,7 +122,12 @@ def correspondence(ctx):
     with ThreadPoolExecutor(max_workers=6) as ex:
         results = list(ex.map(one, shards))
     nbad = 0
+    nfrag = 0
+    import re
     for sh, (rc, flat) in zip(shards, results):
+        m = re.search(r'\("FRAG"(?:%string)?,\s*(\d+)', flat)
+        if m:
+            nfrag += int(m.group(1))
         for tag, what in (("PRINT", "Printer.print_string differs from ESRPrinter().doprint byte for byte"),
                           ("PREC", "Printer.prec differs from sympy's precedence()"),
                           ("LEX", "PyParse.lex of the printed string is not the model's token list"),
@@ -144,6 +150,8 @@ def correspondence(ctx):
         rep.case(key=r["printed"], nontrivial=(r["tag"] != "d1"),
                  sample={"srepr": r["srepr"], "print_order_dump": r["sexpr"], "printed": r["printed"]} if r["tag"].startswith("r") else None)
     rep.traces += len(rows)
+    rep.extra["expressions_inside_proved_fragment"] = nfrag
+    rep.extra["expressions_compared"] = len(rows)
     n_random, cap, maxd, nsh = sizes(ctx)
     rep.rule = ("sympy expressions over ESR's vocabulary (x positive; a0,a1,a2 real; integers, rationals, E; neg, inv, sqrt, Abs, exp, log, sin, "
                 "square, sqrt_abs, log_abs; add, sub, mul, div, pow, pow_abs; n-ary sums/products with rational coefficients): exhaustive to depth 2 "
@@ -181,6 +189,9 @@ def search(ctx):
     for f in getattr(ctx, "c12_impure", [])[:3]:
         rep.fail("failing-input", "the same expression printed to different strings: %r" % (f["prints"],), "C12:impure",
                  input={"srepr": f["srepr"]}, observed=f["prints"], expected="one string")
+    obs = [o["search"].get("observations") for o in outs if o["search"].get("observations")]
+    if obs:
+        rep.extra["outside_domain_observations"] = obs[0]
     rep.extra["roundtrip_checked"] = checked
     rep.extra["roundtrip_skipped_outside_fragment_or_undefined"] = skipped
     rep.evaluations += checked
@@ -188,7 +199,9 @@ def search(ctx):
 
 TRUSTED = [
     "Coq 8.16.1 kernel + vm_compute (no native_compute)",
-    "Print Assumptions: see evidence (theorems over R use the standard library's Reals axioms)",
+    "Print Assumptions: C12_lex_print and C12_parse_fuel_enough are closed under the global context; C12_parse_print_level, C12_parse_print, "
+    "C12_print_roundtrip and C12_nested_add_refuted use the standard library's Reals axioms ClassicalDedekindReals.sig_not_dec, "
+    "ClassicalDedekindReals.sig_forall_dec, FunctionalExtensionality.functional_extensionality_dep and Classical_Prop.classic (via Rpower/ln/sqrt)",
     "hand-written model coq/Model/Printer.v of ESRPrinter._print_Add/_print_Mul (evaluated path)/_print_Pow/atoms/functions and of "
     "sympy's precedence(); tied each run by byte-for-byte comparison with the real printer on generated expressions",
     "hand-written model coq/Model/PyParse.v of Python's expression grammar for + - * / ** unary-minus calls and parentheses; tied each run "
@@ -198,8 +211,15 @@ TRUSTED = [
     "sympy_symbols.py and Likelihood.run_sympify; the search re-parses with the real tables",
 ]
 ASSUMPTIONS = [
-    "expressions are evaluated sympy trees over Add Mul Pow Symbol Integer Rational Exp1 and applied functions (the unevaluated-Mul branch of _print_Mul is outside the model)",
-    "real semantics: division by a non-zero number, log of a positive number, non-integer powers of a positive base (elsewhere the expression is 'undefined' and nothing is claimed)",
+    "expressions are evaluated sympy trees over Add Mul Pow Symbol Integer Rational Exp1 and applied functions; the unevaluated-Mul branch of _print_Mul "
+    "(custom_printer.py 276-318) is outside the model and the dumper refuses trees that would take it",
+    "proved fragment (Model/PyParse.v: fragment = wf && names_ok): no Add directly inside an Add and no Mul directly inside a Mul (sympy flattens both), "
+    "functions log/exp/sin/cos/Abs of one argument, no symbol called E, no zoo, a Mul factor b**-1 has no bare Rational base, and a Mul factor with base 1/q "
+    "and a negative symbolic exponent (as_base_exp quirk) is left to the correspondence and the numeric search; the evidence field "
+    "expressions_inside_proved_fragment counts the generated expressions inside it",
+    "real semantics: division by a non-zero number, log of a positive number, non-integer powers of a positive base (elsewhere the expression is "
+    "'undefined' and nothing is claimed); definedness of the PARSED tree is not proved separately (Coq's total real functions make both sides equal anyway)",
+    "outside the domain, recorded not judged: an unevaluated Add directly inside an Add is mis-printed (C12_nested_add_refuted; evidence outside_domain_observations)",
 ]
 LEVEL_TEXT = ("Machine-checked theorems (Coq) on a model of ESRPrinter and of Python's expression grammar: the printed token string of every expression of the fragment "
               "parses back, at every grammar level the printer relies on, to a tree whose real-number denotation under both symbol tables equals the expression's; "
